@@ -1820,6 +1820,91 @@ def gen_shared_grid(rng, mode: str) -> dict:  # noqa: ANN001
     return {"mode": mode, "y0": [js(v) for v in y0], "p0": [js(v) for v in p0], "ops": ops}
 
 
+def gen_late_switch(rng, mode: str) -> dict:  # noqa: ANN001
+    """dense sampling right after a switch, late in absolute time (C14; seeded change C14-4): a protocol time course whose
+    requested grid contains points only just later (gap 2^-7 .. 2^-9: dyadic, exact in binary64, whole nanoseconds; on the real
+    solver also 2^-12, 2^-16, 2^-20) than the
+    START of a step -- the protocol's own start or an inner boundary -- at absolute times 512 .. ~6000, either because the
+    simulator was continued there (simulate(T) / a time course ending at T first, then a protocol with ordinary short steps)
+    or because the protocol itself has long steps (durations 512 .. 2048 on a fresh simulator).  The step's values govern
+    from the boundary itself, so the row `boundary + gap` must be present and hold the solution after `gap` under the NEW
+    values from the state at the boundary.  Some grids also hold the boundary itself, a point just BEFORE a boundary, or
+    ordinary points; relative or absolute; sometimes a caller-owned ndarray; sometimes followed by a time course / a second
+    cycle that again starts just after the time reached."""
+    y0, p0 = _base(rng, mode)
+    ops: list = []
+    reached = F(0)
+    long_steps = rng.random() < 0.4
+    if not long_steps:
+        T = F(rng.choice([512, 1024, 1024, 2048, 4096])) + _g(rng.choice([0, 0, 1, 4]))
+        r = rng.random()
+        if r < 0.15:
+            # an override BEFORE the long stretch: integrator time and absolute time differ by a small shift
+            t0 = _g(rng.randint(1, 32))
+            ops.append(["sim", js(t0), rng.choice([1, 2])])
+            ops.append(["updvar", _one_var(rng)])
+            T += t0
+        if rng.random() < 0.7:
+            ops.append(["sim", js(T), rng.choice([1, 2, 4])])
+        else:
+            ops.append(["tc", [js(T - 1), js(T)]])
+        reached = T
+        if r >= 0.9:
+            ops.append(["updvar", _one_var(rng)])  # an override AT the late time (the integrator restarts at its time 0)
+        steps = gen_steps(rng, mode)
+    else:
+        n = rng.choice([2, 2, 3])
+        with_c = rng.random() < 0.35
+        steps = []
+        for _ in range(n):
+            u = {"k": js(rng.choice([F(0), F(1, 2), F(1), F(2), F(1, 4)]))}
+            if with_c:
+                u["c"] = js(rng.choice([F(0), F(1, 2), F(1)]))
+            steps.append([js(F(rng.choice([512, 1024, 1024, 1536, 2048])) + _g(rng.choice([0, 0, 0, 2, 4]))), u])
+    cycles = 1 if long_steps or rng.random() < 0.75 else 2
+    rel = rng.random() < 0.5
+    gid = 0 if rng.random() < 0.2 else None
+    first_pts: list | None = None
+    for cyc in range(cycles):
+        bounds = [reached]
+        for d, _u in steps:
+            bounds.append(bounds[-1] + fr(d))
+        starts = bounds[:-1]  # where a step starts
+        if first_pts is not None and rel:
+            ptsq = first_pts  # the same relative grid again (second cycle)
+        else:
+            pts: set = set()
+            late = [b for b in starts if b >= 512]
+            # at least one point just after a LATE start of a step
+            must = rng.choice(late) if late else starts[-1]
+            for b, e in zip(starts, bounds[1:]):
+                if b == must or rng.random() < 0.5:
+                    # the real solver also gets much smaller gaps (the exact stand-in would leave binary64 there)
+                    pts.add(b + F(1, 2 ** rng.choice([7, 8, 8, 9] if mode == "exact" else [7, 8, 9, 12, 16, 20])))
+                if rng.random() < 0.25:
+                    pts.add(e)  # the boundary itself
+                if rng.random() < 0.2:
+                    pts.add(e - F(1, 2 ** rng.choice([7, 8, 9])))  # just before the switch
+                if rng.random() < 0.6:
+                    span = int((e - b) * GRID)
+                    pts.add(b + _g(rng.randint(1, span)))
+            if rng.random() < 0.15:
+                pts.add(bounds[-1] + _g(rng.randint(1, 8)))  # beyond the end: ignored
+            ptsq = sorted(t for t in pts if t > reached)
+            if rel:
+                ptsq = [t - reached for t in ptsq]
+            first_pts = ptsq
+        op = ["ptc", steps, [js(t) for t in ptsq], rel]
+        if gid is not None:
+            op.append(gid if rel else cyc)  # one array object per CONTENT: the relative grid is handed to both cycles
+        ops.append(op)
+        reached = bounds[-1]
+    if rng.random() < 0.3:
+        gap = F(1, 2 ** rng.choice([7, 8, 9]))
+        ops.append(["tc", [js(reached + gap), js(reached + gap + _g(rng.randint(1, 16)))]])
+    return {"mode": mode, "y0": [js(v) for v in y0], "p0": [js(v) for v in p0], "ops": ops}
+
+
 # ---------------------------------------------------------------------------------------
 # (6) Gallina printers + correspondence
 # ---------------------------------------------------------------------------------------
